@@ -32,12 +32,15 @@ impl EventLog {
         let mut writer = self.writer.lock().expect("event log mutex");
         #[cfg(rip_verif)]
         rip_kernel::verif::point("log.locked");
-        let line = serde_json::to_string(event)
+        let mut line = serde_json::to_string(event)
             .map_err(|err| io::Error::new(io::ErrorKind::InvalidData, err))?;
+        // One write for the frame and its terminator: a line of BufWriter capacity or more bypasses the
+        // buffer, so a separate newline write would leave an unterminated line on disk if the process
+        // died in between, and the next append (O_APPEND) would be glued onto it.
+        line.push('\n');
         writer.write_all(line.as_bytes())?;
         #[cfg(rip_verif)]
         rip_kernel::verif::point("log.body_written");
-        writer.write_all(b"\n")?;
         #[cfg(rip_verif)]
         rip_kernel::verif::point("log.nl_written");
         writer.flush()?;
